@@ -2308,3 +2308,293 @@ def single_sweep_rule(chk, src, rule_fresh=None, rule_ofs=None, rule_sites=None)
                 if rule_sites:
                     chk.ob(rule_sites, f"{tag}: sites and environments", not P_s, fi.where, P_s[:3] or "as specified", "active sites in sweep order, environments next to them", line=fi.node.lineno,
                            detail="single_sweep: " + (P_s[0] if P_s else ""))
+
+
+# ---------------------------------------------------------------------------------------------- local solvers of the tangent-space schemes
+class _Sc(Sym):
+    """scalar of an abstract run: a sympy value with the attributes of a Python number"""
+    def __init__(self, v):
+        import sympy as sp
+        super().__init__("scalar")
+        self.v = sp.nsimplify(v.v if isinstance(v, _Sc) else v, rational=True) if not isinstance(v, bool) else v
+
+    @staticmethod
+    def of(x):
+        import sympy as sp
+        if isinstance(x, _Sc):
+            return x.v
+        if isinstance(x, complex):
+            return sp.nsimplify(x.real) + sp.I * sp.nsimplify(x.imag)
+        if isinstance(x, (int, float)) and not isinstance(x, bool):
+            return sp.nsimplify(x)
+        if isinstance(x, sp.Basic):
+            return x
+        from fractions import Fraction
+        if isinstance(x, Fraction):
+            return sp.Rational(x.numerator, x.denominator)
+        return None
+
+    def _b(self, o, f):
+        ov = _Sc.of(o)
+        if ov is None:
+            return NotImplemented
+        return _Sc(f(self.v, ov))
+
+    def __add__(self, o):
+        return self._b(o, lambda a, b: a + b)
+
+    __radd__ = __add__
+
+    def __sub__(self, o):
+        return self._b(o, lambda a, b: a - b)
+
+    def __rsub__(self, o):
+        return self._b(o, lambda a, b: b - a)
+
+    def __mul__(self, o):
+        return self._b(o, lambda a, b: a * b)
+
+    __rmul__ = __mul__
+
+    def __truediv__(self, o):
+        return self._b(o, lambda a, b: a / b)
+
+    def __rtruediv__(self, o):
+        return self._b(o, lambda a, b: b / a)
+
+    def __neg__(self):
+        return _Sc(-self.v)
+
+    @property
+    def imag(self):
+        import sympy as sp
+        return _Sc(sp.im(self.v))
+
+    @property
+    def real(self):
+        import sympy as sp
+        return _Sc(sp.re(self.v))
+
+    def conjugate(self):
+        import sympy as sp
+        return _Sc(sp.conjugate(self.v))
+
+    conj = conjugate
+
+
+class _Tn(Sym):
+    """tensor whose content does not matter: a shape, and every operation gives another one"""
+    def __init__(self, name="tensor", shape=(2, 3, 5)):
+        super().__init__(name)
+        self.shape, self.ndim = tuple(shape), len(shape)
+
+    def symattr(self, attr):
+        if attr in ("T", "array", "real", "imag"):
+            return _Tn(f"{self._name}.{attr}", self.shape[::-1] if attr == "T" else self.shape)
+        return lambda *a, **k: _Tn(f"{self._name}.{attr}()", self.shape)
+
+    def __getitem__(self, k):
+        return _Tn(self._name + "[..]", self.shape)
+
+    def _a(self, o):
+        return _Tn("arith", self.shape)
+
+    __add__ = __radd__ = __sub__ = __rsub__ = __mul__ = __rmul__ = __truediv__ = __rtruediv__ = __matmul__ = __rmatmul__ = _a
+
+    def __neg__(self):
+        return _Tn("neg", self.shape)
+
+
+class _Vec(Sym):
+    """local vector handed to an effective operator: linear combination of (operator tag applied to the start vector) with scalar coefficients; '1' = the vector itself"""
+    def __init__(self, terms=None):
+        super().__init__("vector")
+        self.terms = dict(terms if terms is not None else {"1": 1})
+        self.shape = (2, 3, 5)
+
+    def symattr(self, attr):
+        if attr in ("ravel", "reshape", "flatten", "copy", "astype", "conj"):
+            return lambda *a, **k: self
+        if attr in ("array",):
+            return self
+        raise AnalysisError(f"local vector: attribute {attr} is not modelled")
+
+    def _scale(self, c):
+        import sympy as sp
+        return _Vec({k: sp.simplify(v * c) for k, v in self.terms.items()})
+
+    def __mul__(self, o):
+        c = _Sc.of(o)
+        if c is None:
+            raise AnalysisError(f"local vector times {o!r}")
+        return self._scale(c)
+
+    __rmul__ = __mul__
+
+    def __truediv__(self, o):
+        c = _Sc.of(o)
+        if c is None:
+            raise AnalysisError(f"local vector divided by {o!r}")
+        return self._scale(1 / c)
+
+    def __neg__(self):
+        return self._scale(-1)
+
+    def __add__(self, o):
+        if not isinstance(o, _Vec):
+            raise AnalysisError(f"local vector plus {o!r}")
+        return _Vec({k: self.terms.get(k, 0) + o.terms.get(k, 0) for k in set(self.terms) | set(o.terms)})
+
+    def __sub__(self, o):
+        return self + (-o)
+
+
+def tdvp_solver_rule(chk, src, rule_sibling, rule_herm, quals=("Mps._evolve_tdvp_ps", "Mps._evolve_tdvp_ps2", "Mps._evolve_tdvp_mu_cmf"), imag_only=False):
+    """abstract run of the projector-splitting schemes with recorder stand-ins (state with iter_idx_list / _switch_direction from source, environments, effective operators as
+    tagged linear maps H_k, blocked decompositions and tensors without content, a symbolic step): every call of the Krylov exponential or of the ODE solver is recorded with
+    the map it is given applied to a symbolic vector (helper closures and helper functions of the source are simply executed).  The run is made four times - Krylov / ODE,
+    real / imaginary step.  sibling: call by call both solvers propagate exp(c H_k) with the same c on the same effective operator, and c is -i dt/2 (real step dt) resp.
+    -tau/2 (step -i tau) for the forward half steps and the opposite for the backward ones.  herm: the map handed to the Krylov exponential is a real multiple of H_k."""
+    import sympy as sp
+    resolve = class_resolver(src, {"Mps": MPS})
+    dt, tau = sp.Symbol("dt", real=True, positive=True), sp.Symbol("tau", real=True, positive=True)
+
+    def run(qual, solver, imag, to_right):
+        fi = src.func(MPS, qual)
+        calls = []
+        n_hop = [0]
+
+        class HOp(Sym):
+            def __init__(self, nops):
+                n_hop[0] += 1
+                super().__init__(f"H#{n_hop[0]}[{nops} site operator(s)]")
+
+            def __call__(self, y):
+                if not isinstance(y, _Vec) or list(y.terms) != ["1"]:
+                    raise AnalysisError(f"effective operator applied to {y!r}")
+                return _Vec({self._name: y.terms["1"]})
+
+        class St(Sym):
+            def __init__(self, name):
+                super().__init__(name)
+                self._cls = "Mps"
+                self.site_num, self.to_right, self.qnidx = 4, to_right, (0 if to_right else 3)
+                self.qn = [f"qn{k}" for k in range(5)]
+                self.qntot = "qntot"
+                self.evolve_config = Sym("evolve_config", ivp_solver=solver, ivp_rtol=1e-5, ivp_atol=1e-8, stat=None, adaptive=False, tdvp_cmf_midpoint=False, tdvp_cmf_c_trapz=False,
+                                         force_ovlp=False, reg_epsilon=1e-10, method="method")
+                self.dtype = "dtype"
+                self.compress_config = Sym("compress_config", ofs=None, ofs_swap_jw=False)
+                self.model = "model"
+
+            def __len__(self):
+                return self.site_num
+
+            def __getitem__(self, k):
+                return _Tn(f"site{k}")
+
+            def __setitem__(self, k, v):
+                pass
+
+            def copy(self):
+                return St("copy of the state")
+
+            to_complex = copy
+
+            def ensure_left_canonical(self, *a, **k):
+                return self
+
+            ensure_right_canonical = ensure_left_canonical
+
+            def _get_big_qn(self, cidx, swap=False):
+                return _Tn("qnbigl"), _Tn("qnbigr"), _Tn("qnmat")
+
+            def _update_mps(self, *a, **k):
+                return None
+
+            def _push_cano(self, idx):
+                return None
+
+        def expm_krylov(fn, step, y0, *a, **k):
+            out = fn(_Vec())
+            calls.append(("krylov", out, _Sc.of(step)))
+            return _Tn("evolved"), 7
+
+        def solve_ivp(fn, span, y0, *a, **k):
+            out = fn(_Sc(sp.Symbol("t")), _Vec())
+            calls.append(("ode", out, _Sc.of(span[1]) - _Sc.of(span[0])))
+            return Sym("sol", y=_Tn("evolved"), nfev=7, t=[0, 1])
+
+        def integrand_func_factory(shape, hop, islast, S_inv, left, coef, *a, **k):
+            """the derivative function of the constant-mean-field scheme: H y / coef on the last (coefficient) site, its projection P H y / coef elsewhere"""
+            c = _Sc.of(coef)
+
+            def f(t, y):
+                v = hop(y)
+                if not islast:
+                    v = _Vec({f"P {k_}": c_ for k_, c_ in v.terms.items()})
+                return v / c
+            return f
+        env_ = Sym("environ", read=lambda *a, **k: _Tn("env"), GetLR=lambda *a, **k: _Tn("env"))
+        mpo = Sym("mpo")
+        mpo.__dict__["try_swap_site"] = lambda *a, **k: None
+
+        class Mpo_(Sym):
+            def __getitem__(self, k):
+                return _Tn(f"mo{k}")
+
+            def try_swap_site(self, *a, **k):
+                return None
+        npx = OpenSym("np", make=lambda t: _Tn(t), iscomplex=lambda x: imag)
+        it = SymInterp(src, resolve, {"np": npx, "xp": npx, "Environ": lambda *a, **k: env_, "hop_expr": lambda l, r, ops, shape, *a, **k: HOp(len(ops)), "expm_krylov": expm_krylov, "solve_ivp": solve_ivp,
+                                      "asxp": lambda x: x, "asnumpy": lambda x: x, "logger": Blob("logger"), "stats": Sym("stats", describe=lambda x: "stats"), "tensordot": lambda a, b, **k: _Tn("two-site", (2, 3, 3, 5)),
+                                      "svd_qn": Sym("svd_qn", svd_qn=lambda *a, QR=False, **k: (_Tn("u", (6, 4)), "qnl", _Tn("v", (5, 4)), "qnr") if QR else (_Tn("u", (6, 4)), _Tn("s", (4,)), "qnl", _Tn("v", (5, 4)), _Tn("s", (4,)), "qnr")),
+                                      "integrand_func_factory": integrand_func_factory, "ones": lambda *a, **k: _Tn("ones"), "transferMat": lambda *a, **k: _Tn("S"), "_mu_regularize": lambda s_, **k: _Tn("s reg"),
+                                      "scipy": Sym("scipy", linalg=Sym("linalg", eigh=lambda *a, **k: (_Tn("w"), _Tn("u"))))})
+        it.max_depth = 10
+        me = St("state")
+        step = _Sc(-sp.I * tau) if imag else _Sc(dt)
+        it.call_function(fi, [me, Mpo_("mpo"), step])
+        return calls
+    n = 0
+    for qual in quals:
+        fi = src.func(MPS, qual)
+        for imag in ((True,) if imag_only else (False, True)):
+            for to_right in (True, False):
+                mode = ("imaginary" if imag else "real") + f" time, sweep starting to the {'right' if to_right else 'left'}"
+                ck = run(qual, "krylov", imag, to_right)
+                co = run(qual, "RK45", imag, to_right)
+                probs, herm = [], []
+                if not ck or len(ck) != len(co) or not any(c[0] == "krylov" for c in ck) or any(c[0] != "ode" for c in co):
+                    probs.append(f"{len(ck)} local propagations with the Krylov solver, {len(co)} with the ODE solver (kinds {sorted({c[0] for c in ck})} / {sorted({c[0] for c in co})})")
+                else:
+                    full_step = qual.endswith("_cmf")
+                    half = ((-tau) if imag else (-sp.I * dt)) if full_step else ((-tau / 2) if imag else (-sp.I * dt / 2))
+                    n_fwd = n_bwd = 0
+                    for i, ((_, vk, sk), (_, vo, so)) in enumerate(zip(ck, co)):
+                        if len(vk.terms) != 1 or len(vo.terms) != 1 or list(vk.terms) != list(vo.terms) or list(vk.terms) == ["1"]:
+                            probs.append(f"propagation {i}: Krylov applies {sorted(vk.terms)}, ODE applies {sorted(vo.terms)}")
+                            continue
+                        tag = list(vk.terms)[0]
+                        ek, eo = sp.simplify(vk.terms[tag] * sk), sp.simplify(vo.terms[tag] * so)
+                        if sp.simplify(ek - eo) != 0:
+                            probs.append(f"propagation {i} ({tag}): Krylov exp(({ek}) H), ODE exp(({eo}) H)")
+                        elif sp.simplify(ek - half) == 0:
+                            n_fwd += 1
+                        elif sp.simplify(ek + half) == 0:
+                            n_bwd += 1
+                        else:
+                            probs.append(f"propagation {i} ({tag}): exponent ({ek}) H is neither the forward nor the backward half step ({half}) H")
+                        if ck[i][0] == "krylov" and (sp.im(sp.simplify(vk.terms[tag])) != 0 or tag.startswith("P ")):
+                            herm.append(f"propagation {i}: the Krylov exponential is given ({sp.simplify(vk.terms[tag])}) * {tag}")
+                    if not probs and not ((n_fwd > n_bwd > 0) if not full_step else (n_fwd == len(ck) and n_bwd == 0)):
+                        probs.append(f"{n_fwd} forward and {n_bwd} backward {'full' if full_step else 'half'} steps")
+                n += 1
+                if rule_sibling:
+                    chk.ob(rule_sibling, f"{qual} [{mode}]: {len(ck)} local propagations", not probs, fi.where, probs[:3] or "equal exponents, forward / backward half steps", "equal exponents", line=fi.node.lineno,
+                           detail=f"{qual}: the result depends on which local integrator is selected, or a half step has the wrong sign / length: " + (probs[0] if probs else ""))
+                if rule_herm:
+                    chk.ob(rule_herm, f"{qual} [{mode}]: operand of the Krylov exponential", not herm and not (probs and not ck), fi.where, herm[:3] or "real multiple of the effective Hamiltonian",
+                           "real multiple of a Hermitian operator", line=fi.node.lineno,
+                           detail="the Krylov exponential is given a non-Hermitian (e.g. anti-Hermitian -iH) operator: its Lanczos recurrence assumes real alpha; complex factors belong in the time step")
+    return n
